@@ -589,6 +589,9 @@ def _run_compile(env, ctx, op, path):
         env.active_compiles -= 1
         ctx.stack.pop()
         if task is not None:
+            # steps of a nested operation do not count against the enclosing one
+            if saved_deadline is not None and saved_deadline != mon.INF:
+                saved_deadline += task.local - start
             task.deadline = saved_deadline
     if m is None:
         # a failed construction leaves the registry entry of its own name as it was (other
